@@ -261,8 +261,8 @@ def run(ctx):
     prop_design = dd.PROPERTIES + dd.REPAIRED_PROPERTIES
     # quick: the specification-internal runs (design / transcription against the meaning) on two flavours each,
     # thorough: on every flavour; the conformance part below always covers every flavour
-    design_keys = [k for k in keys if not q or k in (('mapping', 'file', False), ('mapping', 'mapping', True))]
-    code_keys = [k for k in keys if (not q and k != ('mapping', 'mapping', False)) or k in (('file', 'file', False), ('mapping', 'mapping', True))]
+    design_keys = [k for k in keys if (not q and k != ('mapping', 'mapping', False)) or k in (('mapping', 'file', False), ('mapping', 'mapping', True))]
+    code_keys = [k for k in keys if (not q and (k[2] or k in (cex_key, ('file', 'file', False)))) or k in (('file', 'file', False), ('mapping', 'mapping', True))]
     for k in keys:
         n = model_name(k)
         if k in design_keys:
@@ -279,7 +279,7 @@ def run(ctx):
     for k in [x for x in keys if x in (('mapping', 'file', False), ('mapping', 'mapping', True))][:1 if q else 2]:
         jobs.append((_job_check, (ctx.scratch, 'design-stacked-' + model_name(k), mconsts(k, mode=dd.REPAIRED, **stacked),
                                   inv_design, prop_design, w, to)))
-        if deviating:
+        if deviating and not q:
             jobs.append((_job_check, (ctx.scratch, 'code-stacked-' + model_name(k), mconsts(k, mode=as_tree, **stacked),
                                       dd.INVARIANTS + ['Explained'], dd.PROPERTIES, w, to)))
     # the counterexamples TLC exhibits for the code as it is (replayed below)
@@ -301,7 +301,7 @@ def run(ctx):
     big = dict(MaxBase=4, MaxTxn=12, MaxClock=7, K=64, MaxLayers=3, MaxNewOid=8, MaxPack=2, MaxUndo=2, PrintObs=True)
     simc = dict(MaxBase=2, MaxTxn=6, MaxClock=3, K=64, MaxLayers=3, MaxNewOid=2, MaxPack=1, MaxUndo=2, PrintObs=True,
                 Metas=('m0', 'm1'))
-    num = 60 if q else 600
+    num = 40 if q else 600
     fams = {}
     for k in keys:
         n = model_name(k)
@@ -372,6 +372,8 @@ def run(ctx):
             beh = tlaparse.parse_simulate_file(beh) if (r['mismatch'] or r['genuine']) else None
         items.append((source, fam, beh, combo, c, r))
     judge(ctx, items, stats)
+    if os.environ.get('ZV_DEBUG'):
+        print('judged: %.1fs since start' % (time.time() - ctx.t0))
 
     # ---------------------------------------------------------------- vacuity
     acts, tags, distinct, nontrivial, established = {}, {}, set(), set(), {}
